@@ -269,6 +269,36 @@ pub fn run(ctx: &mut Ctx) {
 
     decode_integers(ctx, "C15", false);
 
+    // JSON: malformed strings with long non-ASCII tails (an error path that echoes or slices the input must not panic)
+    let stems: Vec<(Ty, &str)> = vec![
+        (Ty::Date, "2020/01/01"), (Ty::Date, "2020-01-01"), (Ty::Date, "2020-01x"), (Ty::Date, ""), (Ty::Time, "10:20:30,5"), (Ty::Time, "10.20"), (Ty::Time, ""),
+        (Ty::Timestamp, "2020-01-01T10:20:30"), (Ty::Timestamp, "2020-01-01 10:20:30.5"), (Ty::OracleDate, "2020-01-01 10:20:30"), (Ty::OracleDate, "2020/01/01"),
+        (Ty::IntervalYM, "+0001-05"), (Ty::IntervalYM, "0001/05"), (Ty::IntervalDT, "+01 02:03:04.000005"), (Ty::IntervalDT, "+01T02:03"),
+    ];
+    let pads: [&str; 4] = ["\u{e9}", "\u{1f980}", "a\u{e9}", "\u{20ac} "];
+    let max_pad: u64 = 72;
+    let stems_r = &stems;
+    let r = ctx.sweep_each("json_long_non_ascii_strings", "for each type: well-formed and malformed stems followed by 0..=72 repetitions of a 2-, 4-, 1+2- and 3+1-byte pattern (every byte alignment of every cut-off up to 288 bytes), as JSON strings and through the value deserializers: an error or an in-range value, never a panic", stems.len() as u64 * 4 * (max_pad + 1), 64, |idx, acc| {
+        let k = (idx % (max_pad + 1)) as usize;
+        let pad = pads[((idx / (max_pad + 1)) % 4) as usize];
+        let (ty, stem) = stems_r[(idx / (max_pad + 1) / 4) as usize];
+        let text = format!("{stem}{}", pad.repeat(k));
+        acc.states += 1;
+        acc.t(2);
+        acc.traces += 1;
+        let doc = explorer::serde_json::to_string(&text).unwrap();
+        let a = guard(|| json_decode(ty, &doc));
+        let b = guard(|| value_decode(ty, serde::de::value::StrDeserializer::<serde::de::value::Error>::new(&text)));
+        for (how, got) in [("serde_json::from_str", a), ("StrDeserializer", b)] {
+            match got {
+                Ok(Ok(v)) => { if in_range(ty, v as i128) { acc.cls("decoded_in_range") } else { acc.fail("C15:json-decode:yields-out-of-range-value", idx, || (format!("{how}::<{ty:?}>({text:?})"), "Err or an in-range value".into(), format!("Ok({v})"), String::new())) } }
+                Ok(Err(_)) => { acc.cls("rejected"); acc.nontrivial += 1; }
+                Err(()) => acc.fail("C15:json-decode:panic", idx, || (format!("{how}::<{ty:?}>({text:?})"), "Err or a value".into(), "panic".into(), format!("let r: Result<{ty:?}, _> = serde_json::from_str({doc:?});"))),
+            }
+        }
+    });
+    ctx.require(&r, &["rejected", "decoded_in_range"]);
+
     // JSON: complete single-edit neighbourhood of canonical strings
     let symbols: Vec<&str> = vec!["0", "1", "2", "3", "5", "9", "-", "+", ":", ".", " ", "T", "/", ",", "A", "e", "x", "\\\\", "\\u00e9", ""];
     let mut bases: Vec<(Ty, String)> = Vec::new();
